@@ -37,6 +37,7 @@ type World struct {
 	invs      map[string]*ssa.Function
 	decs      map[string]*ssa.Function
 	unrolls   map[string]*ssa.Function
+	frames    map[string]*ssa.Function
 	contracts map[*ssa.Function]*ssa.Function
 	loadTime  float64
 	init      *initInfo
@@ -68,7 +69,7 @@ func loadWorld(patterns []string, goarch string) (*World, error) {
 	prog, spkgs := ssautil.AllPackages(pkgs, ssa.NaiveForm|ssa.GlobalDebug)
 	prog.Build()
 	w := &World{prog: prog, harnesses: map[string]*Harness{}, invs: map[string]*ssa.Function{}, decs: map[string]*ssa.Function{},
-		unrolls: map[string]*ssa.Function{}, contracts: map[*ssa.Function]*ssa.Function{}}
+		unrolls: map[string]*ssa.Function{}, frames: map[string]*ssa.Function{}, contracts: map[*ssa.Function]*ssa.Function{}}
 	for _, p := range spkgs {
 		if p == nil {
 			continue
@@ -92,6 +93,8 @@ func loadWorld(patterns []string, goarch string) (*World, error) {
 				w.invs[strings.TrimPrefix(n, "verif_inv_")] = fn
 			case strings.HasPrefix(n, "verif_dec_"):
 				w.decs[strings.TrimPrefix(n, "verif_dec_")] = fn
+			case strings.HasPrefix(n, "verif_frame_"):
+				w.frames[strings.TrimPrefix(n, "verif_frame_")] = fn
 			case strings.HasPrefix(n, "verif_unroll_"):
 				w.unrolls[strings.TrimPrefix(n, "verif_unroll_")] = fn
 			case strings.HasPrefix(n, "verif_contract_"), strings.HasPrefix(n, "verif_extern_"), strings.HasPrefix(n, "verif_lemma_"):
@@ -175,6 +178,7 @@ func (w *World) runHarness(h *Harness) (res *Result) {
 	e.contracts = w.contracts
 	e.invs, e.decs, e.unrolls = w.invs, w.decs, w.unrolls
 	e.trueInv = w.trueInv
+	e.frames = w.frames
 	e.props = h.Props
 	e.topPkg = h.Pkg
 	e.curTop = h.Name
@@ -210,6 +214,7 @@ func (w *World) runHarness(h *Harness) (res *Result) {
 	st := ii.st.clone()
 	st.cells = map[cellKey][]*Term{}
 	e.globalsRO = ii.ro
+	e.initFacts = ii.facts
 	for k, v := range ii.literals {
 		e.literals[k] = v
 	}
@@ -249,7 +254,11 @@ func (w *World) runHarness(h *Harness) (res *Result) {
 	}
 	// facts about package-level constants whose initialisers are outside the
 	// modelled subset (e.g. netip.MustParseAddr of a literal): trusted, listed
-	if gf := fn.Pkg.Func("verif_global_facts"); gf != nil {
+	for _, gp := range w.pkgs {
+		gf := gp.Func("verif_global_facts")
+		if gf == nil {
+			continue
+		}
 		gfr := e.newFrame(gf, nil)
 		gfr.spec = true
 		gfr.quiet = true
@@ -257,7 +266,7 @@ func (w *World) runHarness(h *Harness) (res *Result) {
 		vals := e.finishCall(gfr, tmp, gfr, nil, nil)
 		st.pc = tmp.pc
 		st.assume(vals[0].term())
-		e.assumedExterns["verif_global_facts of package "+fn.Pkg.Pkg.Name()+" (values of package-level constants initialised by parsing literals)"] = true
+		e.assumedExterns["verif_global_facts of package "+gp.Pkg.Name()+" (values of package-level constants initialised by parsing literals)"] = true
 	}
 	e.execFunc(fr, args, st)
 	if h.Target != nil && !fr.hctx.holeDone {
